@@ -331,7 +331,7 @@ fn text_strategy() -> impl Strategy<Value = String>
         2 => "[0-9a-zA-Z]{40,46}",
         2 => "[0-9a-zA-Z]{43}",
         // mutations of valid encodings
-        4 => (valid, any::<u16>(), 0u8..6, "[ -/:-@\\[-`{-~é✓]").prop_map(|(s, pos, kind, foreign)|
+        6 => (valid, any::<u16>(), 0u8..10, "[ -/:-@\\[-`{-~é✓\n\r\t\u{a0}\u{2028}]").prop_map(|(s, pos, kind, foreign)|
         {
             let mut chars: Vec<char> = s.chars().collect();
             let i = crate::verif::gen::pick(pos, chars.len());
@@ -342,6 +342,11 @@ fn text_strategy() -> impl Strategy<Value = String>
                 2 => { chars.remove(i); }
                 3 => { chars.insert(i, '0'); }
                 4 => { chars[42] = 'Z'; chars[41] = 'Z'; chars[i] = 'Z'; }
+                // a complete valid encoding with something before or after it (line endings, blanks, one more digit)
+                6 => { chars.push(foreign.chars().next().unwrap_or(' ')); }
+                7 => { chars.insert(0, foreign.chars().next().unwrap_or(' ')); }
+                8 => { chars.push('\r'); chars.push('\n'); }
+                9 => { chars.push('\n'); }
                 _ => {}
             }
             chars.into_iter().collect()
